@@ -36,8 +36,8 @@ Theorem C02_progress_run_partial : forall teqD : tenv -> sty -> sty -> Prop,
   (* tc_annotations_typed *)
   (forall p p', typecheck p = Accept p' -> in_fragment p' -> static_typed (teqD (p_types p')) p') ->
   (* topo_reachable *)
-  (forall p p' c, typecheck p = Accept p' -> in_fragment p' ->
-                  reachable (p_types p') (p_funs p') (init_config p') c -> Topo c) ->
+  (forall p p' md c, typecheck p = Accept p' -> in_fragment p' -> is_np md = false ->
+                     reachable (p_types p') (p_funs p') md (init_config p') c -> Topo c) ->
   forall p p', typecheck p = Accept p' -> in_fragment p' ->
   forall fuel pick c,
     exec_run fuel pick Async (p_types p') (p_funs p') (init_config p') = RQuiescent c ->
